@@ -8,17 +8,17 @@ open CprocVerif.Spec.MacroRef (HTok Item PTok MacroDef RErr Flag expandH)
 open CprocVerif.Spec
 
 /-- the class of source texts: as `TextOK`, but the tokens between the parentheses of an
-invocation may name object-like macros (`ArgTokOK`: no new-line, `#`, name of a function-like
-macro) -/
+invocation may name object-like macros and hold complete invocations of function-like macros
+(`ArgsOK`, recursively; no new-line, no `#`) -/
 inductive TextP (ms0 : List Macro) : List Tok → Prop where
   | nil : TextP ms0 []
   | plain (t : Tok) (r : List Tok) (h1 : ¬ IsFunName ms0 t) (h2 : t.kind ≠ .THASH) (h3 : t.kind ≠ .TNONE)
       (h4 : t.kind ≠ .TEOF) (h5 : t.hide = false) (h6 : TextP ms0 r) : TextP ms0 (t :: r)
   | call (T lp : Tok) (r' : List Tok) (F : Macro) (args : List (List Tok)) (rest : List Tok)
       (h1 : T.kind = .TIDENT) (h2 : T.hide = false) (h3 : macroget ms0 (T.lit.getD []) = some F)
-      (h4 : F.func = true) (h5 : lp.kind = .TLPAREN)
+      (h4 : F.func = true) (h5 : lp.kind = .TLPAREN) (h5' : lp.hide = false)
       (h6 : collect F.params 0 0 [] [] r' = .ok (args, rest))
-      (h7 : ∀ x ∈ r'.take (r'.length - rest.length), ArgTokOK ms0 x) (h8 : ∀ a ∈ args, a ≠ [])
+      (h7 : ArgsOK ms0 r' rest) (h8 : ∀ a ∈ args, a ≠ [])
       (h9 : TextP ms0 rest) : TextP ms0 (T :: lp :: r')
   | eof (t : Tok) (h : t.kind = .TEOF) : TextP ms0 [t]
 
@@ -32,13 +32,13 @@ theorem textP_head {ms0 : List Macro} {t : Tok} {r : List Tok} (h : TextP ms0 (t
 theorem textP_cons_inv {ms0 : List Macro} {t : Tok} {r : List Tok} (h : TextP ms0 (t :: r)) :
     (¬ IsFunName ms0 t ∧ t.kind ≠ .TEOF ∧ t.hide = false ∧ TextP ms0 r) ∨
     (∃ lp r' F args rest, r = lp :: r' ∧ t.kind = .TIDENT ∧ t.hide = false ∧ macroget ms0 (t.lit.getD []) = some F ∧
-      F.func = true ∧ lp.kind = .TLPAREN ∧ collect F.params 0 0 [] [] r' = .ok (args, rest) ∧
-      (∀ x ∈ r'.take (r'.length - rest.length), ArgTokOK ms0 x) ∧ (∀ a ∈ args, a ≠ []) ∧ TextP ms0 rest) ∨
+      F.func = true ∧ lp.kind = .TLPAREN ∧ lp.hide = false ∧ collect F.params 0 0 [] [] r' = .ok (args, rest) ∧
+      ArgsOK ms0 r' rest ∧ (∀ a ∈ args, a ≠ []) ∧ TextP ms0 rest) ∨
     (t.kind = .TEOF ∧ r = []) := by
   cases h with
   | plain _ _ h1 h2 h3 h4 h5 h6 => exact .inl ⟨h1, h4, h5, h6⟩
-  | call _ lp r' F args rest h1 h2 h3 h4 h5 h6 h7 h8 h9 =>
-    exact .inr (.inl ⟨lp, r', F, args, rest, rfl, h1, h2, h3, h4, h5, h6, h7, h8, h9⟩)
+  | call _ lp r' F args rest h1 h2 h3 h4 h5 h5' h6 h7 h8 h9 =>
+    exact .inr (.inl ⟨lp, r', F, args, rest, rfl, h1, h2, h3, h4, h5, h5', h6, h7, h8, h9⟩)
   | eof _ h => exact .inr (.inr ⟨h, rfl⟩)
 
 /-- the text as the reference sees it (paint marks kept) -/
@@ -108,7 +108,7 @@ theorem stepP (ms0 : List Macro) (hTb : TblOK ms0) (k : Nat) (st s1 s2 : St) (g 
       simp only [absP, absX, h3, h1, List.map_nil, List.nil_append]
     have habss1 : absP ms0 s1 = (absRawP ms0 s1.raw).map Item.tok := by
       simp only [absP, absX, h2, flatG, List.map_nil, List.nil_append]
-    rcases textP_cons_inv ht' with ⟨hnf, heof, hhide, htr⟩ | ⟨lp, r', F, args, rest, hraw, c1, c2, c3, c4, c5, c6, c7, c8, c9⟩ | ⟨hkeof, hrnil⟩
+    rcases textP_cons_inv ht' with ⟨hnf, heof, hhide, htr⟩ | ⟨lp, r', F, args, rest, hraw, c1, c2, c3, c4, c5, c5', c6, c7, c8, c9⟩ | ⟨hkeof, hrnil⟩
     · by_cases hnl : s1.rt.kind = .TNEWLINE
       · cases k with
         | zero => cases he
@@ -121,20 +121,24 @@ theorem stepP (ms0 : List Macro) (hTb : TblOK ms0) (k : Nat) (st s1 s2 : St) (g 
       · refine common ?_ ⟨hnl, heof, hnf⟩ htr
         rw [habsst, habss1, absRawP_cons_visible _ _ _ hnl heof, h2]
         rfl
-    · obtain ⟨g2, hraw2, hrb, seg, rp, hseg, hok, c, hK⟩ :=
-        expand_callP ms0 hTb k s1 s2 s1.rt lp r' F args rest g1 h2 hraw c1 c2 c3 c4 c5 c6 c7 c8 he
+    · obtain ⟨g2, hraw2, hrb, _, c, hK⟩ :=
+        callSpec_all ms0 hTb k s1 s2 s1.rt lp r' F args rest g1 h2 hraw c1 c2 c3 c4 c5 c5' c6 c7 c8 he
       refine ⟨g2, by rw [hraw2]; exact c9, .again (.inl hrb) (LinkE.toLink (out := []) (LinkE.of_eq c ?_))⟩
       intro K hKc
-      have hv : ∀ x ∈ lp :: (seg ++ [rp]), x.kind ≠ .TNEWLINE ∧ x.kind ≠ .TEOF := by
+      obtain ⟨pre, hpre⟩ := c7.suffix
+      have htake : r'.take (r'.length - rest.length) = pre := by rw [hpre]; simp
+      have hrawok := c7.raw
+      rw [htake] at hrawok
+      have hv : ∀ x ∈ lp :: pre, x.kind ≠ .TNEWLINE ∧ x.kind ≠ .TEOF := by
         intro x hx
         rcases List.mem_cons.mp hx with rfl | hx
         · rw [c5]; exact ⟨by decide, by decide⟩
-        · exact ⟨(hok x hx).1, (hok x hx).2.2.2.1⟩
-      have hsplit : s1.raw = (lp :: (seg ++ [rp])) ++ rest := by rw [hraw, hseg]; simp
-      have hL : absP ms0 st = .tok (mkHp ms0 [] s1.rt) :: .tok (mkHp ms0 [] lp) ::
-          (seg.map (iP ms0) ++ iP ms0 rp :: (absRawP ms0 rest).map Item.tok) := by
+        · exact ⟨(hrawok x hx).1, (hrawok x hx).2.2.2.1⟩
+      have hsplit : s1.raw = (lp :: pre) ++ rest := by rw [hraw, hpre]; simp
+      have hL : absP ms0 st = iP ms0 s1.rt :: iP ms0 lp ::
+          ((r'.take (r'.length - rest.length)).map (iP ms0) ++ (absRawP ms0 rest).map Item.tok) := by
         rw [habsst, absRawP_cons_visible _ _ _ (by rw [c1]; decide) (by rw [c1]; decide), hsplit,
-          absRawP_plain ms0 _ _ hv]
+          absRawP_plain ms0 _ _ hv, htake]
         simp [iP]
       have hR2 : absP ms0 s2 = absX ms0 s2 ((absRawP ms0 rest).map Item.tok) := by unfold absP; rw [hraw2]
       rw [hL, hR2]
